@@ -699,6 +699,12 @@ def rule_partial_leak(u, rep, scope_files, crate="epserde", rule="LEAK-PARTIAL")
         whole = []
         rules_err.calls_in(b.crate, b.thir["root"], whole)
         cleans_up = any(dj.get("name") in ("drop_in_place",) for dj, _r, _e in whole)
+        if not cleans_up:
+            # ... or hands the prefix to a drop guard
+            built = []
+            rules_err.adts_built_in(b.crate, b.thir["root"], built)
+            gts = cleanup_guard_types(u, crate)
+            cleans_up = any(aid in gts for (aid, _v, _e) in built)
         for L in loops:
             acc = []
             rules_err.calls_in(b.crate, L, acc)
@@ -742,10 +748,8 @@ def rule_partial_leak(u, rep, scope_files, crate="epserde", rule="LEAK-PARTIAL")
     return n
 
 
-def rule_double_cleanup(u, rep, scope_files, crate="epserde", rule="DOUBLE-CLEANUP"):
-    """A function that drops a partially built prefix by hand (drop_in_place) must not also hold a guard value whose
-    own Drop impl releases the same kind of prefix: on the failing path both run and the items are dropped twice.
-    (Either mechanism alone is fine.)"""
+def cleanup_guard_types(u, crate="epserde"):
+    """ADTs of the crate whose Drop impl releases memory or items by hand (drop guards)."""
     guards_ = set()
     for im in u.impls:
         if im.trait and im.trait.endswith("::Drop") and im.trait.startswith("core::ops") and im.crate.name == crate and im.self_ty[0] == "adt":
@@ -757,6 +761,14 @@ def rule_double_cleanup(u, rep, scope_files, crate="epserde", rule="DOUBLE-CLEAN
             rules_err.calls_in(b.crate, b.thir["root"], acc)
             if any(dj.get("name") in ("drop_in_place", "from_raw_parts", "from_raw", "dealloc") for dj, _r, _e in acc):
                 guards_.add(im.self_ty[1])
+    return guards_
+
+
+def rule_double_cleanup(u, rep, scope_files, crate="epserde", rule="DOUBLE-CLEANUP"):
+    """A function that drops a partially built prefix by hand (drop_in_place) must not also hold a guard value whose
+    own Drop impl releases the same kind of prefix: on the failing path both run and the items are dropped twice.
+    (Either mechanism alone is fine.)"""
+    guards_ = cleanup_guard_types(u, crate)
     n = 0
     for b in u.bodies.values():
         if b.thir is None or b.d.get("krate") != crate or not rules_err.in_scope(b, scope_files) or b.kind not in ("Fn", "AssocFn"):
